@@ -130,6 +130,15 @@ contract("C01", "tempering_worker_send_position", native=False, replay_with="tem
 bounded("C01", "tempering_native", native_runs=3)(_tn)
 
 
+# Hamiltonian proposals: the accept rule exp(-dH) is a Metropolis-Hastings rule only if the kinetic energy in H is the one under
+# which the momenta are drawn (and the trajectory map is a reversible, volume-preserving involution): the C07 mass contracts and
+# its trajectory harness, checked here as well
+from contracts.c07_hamiltonian import diagonal_mass as _dm, matrix_mass_momentum_law as _mml, trajectory_native as _trn
+contract("C01", "hmc_diagonal_mass", native=False, replay_with="hmc_trajectory_native")(_dm)
+contract("C01", "hmc_matrix_mass_momentum_law", native=False, replay_with="hmc_trajectory_native")(_mml)
+bounded("C01", "hmc_trajectory_native", native_runs=16)(_trn)
+
+
 @bounded("C01", "retry_until_accept_native", native_runs=1)
 def retry_until_accept_native(vc):
     """STRICT long-run check on the simplest target (1-d standard normal, fixed proposal width): the variance of the chain must
